@@ -122,16 +122,20 @@ Proof.
     + exact He.
 Qed.
 
+Theorem write_chain_frag_dh : forall dh k0 x0 (l : list (Z * Z * nodex)),
+  NoDup (k0 :: rest_keys (mk_restx l)) -> (forall k, In k (rest_keys (mk_restx l)) -> k0 <= k) ->
+  okx x0 -> Forall (fun y => 0 <= fst (fst y) <= 4 /\ okx (snd y)) l ->
+  write_graph_by (S "atomname") false dh (path_graph k0 (fattrs x0) (mk_restx l)) [] = Ok (ctext [] x0 l).
+Proof.
+  intros dh k0 x0 l ND Hmin Hx Hord. unfold write_graph_by. rewrite write_path_abstract_by by assumption.
+  rewrite (chain_text_frag dh (path_graph k0 (fattrs x0) (mk_restx l)) l [] [] k0 x0 [] None); try reflexivity; try assumption.
+  intros p [].
+Qed.
 Theorem write_chain_frag : forall k0 x0 (l : list (Z * Z * nodex)),
   NoDup (k0 :: rest_keys (mk_restx l)) -> (forall k, In k (rest_keys (mk_restx l)) -> k0 <= k) ->
   okx x0 -> Forall (fun y => 0 <= fst (fst y) <= 4 /\ okx (snd y)) l ->
   write_graph_by (S "atomname") false (fun _ => true) (path_graph k0 (fattrs x0) (mk_restx l)) [] = Ok (ctext [] x0 l).
-Proof.
-  intros k0 x0 l ND Hmin Hx Hord. unfold write_graph_by. rewrite write_path_abstract_by by assumption.
-  rewrite (chain_text_frag (fun _ => true) (path_graph k0 (fattrs x0) (mk_restx l)) l [] [] k0 x0 [] None); try reflexivity; try assumption.
-  intros p [].
-Qed.
-
+Proof. exact (write_chain_frag_dh (fun _ => true)). Qed.
 End WriterSide.
 
 (** ------------------------------------------------------------------ (ii) the strip model on the chain text *)
